@@ -24,6 +24,8 @@ type backend struct {
 	api  amhist.MemoryApi
 	errs []string
 	stop func()
+	// what a full query returned right after Sync (badger: compared again after a shutdown)
+	synced []*amhist.MemoryRecord
 }
 
 type backends struct {
@@ -180,10 +182,31 @@ func (bs *backends) compare(ctx context.Context, qs []askedQuery, bnd []time.Tim
 				run.Failures = append(run.Failures, fmt.Sprintf("backend %s errors: %s", b.name, strings.Join(b.errs, "; ")))
 			}
 			// the process may stop right after Sync: what a fresh process finds in the store
-			if bs.m != nil {
+			// (badger is an LSM store with background goroutines: a file-by-file copy of its live
+			// directory is not a point-in-time image, so its store is reopened after a shutdown instead,
+			// see afterShutdown)
+			if bs.m != nil && b.name != "badger" {
 				bs.reopen(ctx, b.name, all, bnd, run)
+			} else if bs.m != nil {
+				b.synced = all
 			}
 		}()
+	}
+}
+
+// afterShutdown: the badger history is disposed (its store closed), then the store is opened by a
+// fresh history on a fresh machine: the records that had been synced are all there.
+func (bs *backends) afterShutdown(ctx context.Context, bnd []time.Time, run *Run) {
+	for _, b := range bs.list {
+		if b.name != "badger" || b.synced == nil || b.stop == nil {
+			continue
+		}
+		func() {
+			defer func() { recover() }()
+			b.stop()
+		}()
+		b.stop = nil
+		bs.reopen(ctx, "badger", b.synced, bnd, run)
 	}
 }
 
